@@ -56,6 +56,11 @@ let string_of_kind = function
 (* the repaired source: keys are escaped, scalar assignment clears the source text *)
 let key_escape = true
 let stale_source = false
+(* the variant of primitive::load in the library under test, detected by the check (props/C24.py) *)
+let env_flag name = match Sys.getenv_opt name with Some "1" -> true | _ -> false
+let lit_by_value = env_flag "C24_LIT_BY_VALUE"
+let fmt_by_value = env_flag "C24_FMT_BY_VALUE"
+let parse_at_ = parse_at parse32 parse64 lit_by_value fmt_by_value
 
 let split_at_char c s = match String.index_opt s c with
   | None -> (s, None)
@@ -65,7 +70,7 @@ let mk_num (p : (float, float) prim) (src : string option) : jv =
   match src with
   | None -> JNum (p, [])
   | Some h ->
-    (match parse parse32 parse64 (nbytes_of_hex h) with
+    (match parse parse32 parse64 lit_by_value fmt_by_value (nbytes_of_hex h) with
      | Some old -> json_assign_scalar stale_source old p
      | None -> failwith "src")
 
@@ -144,7 +149,7 @@ let do_tree toks =
     let d2 = dump_top print32 print64 key_escape (z_of_int indent) (rebuild v) in
     let det = if d = d2 then 1 else 0 in
     let (eq, same, tree) =
-      match parse_at parse32 parse64 d with
+      match parse_at_ d with
       | Ok (v', _) ->
         if dom then
           let e = (match json_eq eq32 eq64 v' v with Some true -> "1" | Some false -> "0" | None -> "X") in
@@ -165,7 +170,7 @@ let do_parse toks =
   | [h] | [h; _] when true ->
     let text = nbytes_of_hex h in
     let r =
-      (match parse_at parse32 parse64 text with
+      (match parse_at_ text with
        | Ok (v, rest) ->
          let off = List.length text + 1 - List.length rest in
          Printf.sprintf "R tree=%s off=%d" (enc v) off
@@ -174,7 +179,7 @@ let do_parse toks =
        | NoFuel -> "R NOFUEL") in
     (r, "S ")
   | [] -> (* the empty text *)
-    (match parse_at parse32 parse64 [] with
+    (match parse_at_ [] with
      | Ok (v, rest) -> (Printf.sprintf "R tree=%s off=%d" (enc v) (1 - List.length rest), "S ")
      | Err -> ("R ERR", "S ") | Oob -> ("R OOB", "S ") | NoFuel -> ("R NOFUEL", "S "))
   | _ -> failwith "parse case"
